@@ -1,7 +1,8 @@
-(* C03 struct-level round trip: typing judgement for values, the expected decode result, the fuel
-   (recursion depth) a value needs, and the "fresh target" values of the generated ReadFrom. Definitions only. *)
+(* C03/C04 struct level: typing judgement for values, the expected decode result (norm), the recursion
+   depth (fuel) a value needs, admissible prior targets, schema conditions, encodings with unknown fields
+   interleaved. Definitions only. *)
 From Coq Require Import List NArith ZArith Lia Bool Arith.
-From TarsV Require Import Gen.Consts Base.Hex Codec.Wire Codec.Skip Codec.Prim Codec.GenCodec.
+From TarsV Require Import Gen.Consts Base.Hex Codec.Wire Codec.Skip Codec.Prim Codec.GenCodec Codec.Corr.
 Import ListNotations.
 Open Scope N_scope.
 
@@ -20,7 +21,7 @@ Fixpoint enc_fields (e : env) (l : list val) (fds : schema) : list N :=
 Definition scalar_ty (t : ty) : bool :=
   match t with TVec _ | TMap _ _ | TArr _ _ | TStruct _ => false | _ => true end.
 
-Definition scalar_typed (t : ty) (v : val) : Prop :=
+Definition sc_typed (t : ty) (v : val) : Prop :=
   match t, v with
   | TBool, VBool _ => True
   | TI8, VInt z => fits 8 z = true | TI16, VInt z => fits 16 z = true
@@ -32,36 +33,19 @@ Definition scalar_typed (t : ty) (v : val) : Prop :=
   end.
 
 (* a value of IDL type t: integers in the Go type's range, float bit patterns of the right width, container
-   sizes that an int32 count can express, fixed arrays of exactly the declared length, struct members typed
-   by the schema. vector<byte> ([]int8) is the raw-bytes value; every other vector is a list. *)
-Fixpoint has_type (e : env) (t : ty) (v : val) {struct v} : Prop :=
-  match v with
-  | VBytes s => t = TVec TI8 /\ N.of_nat (length s) < 2147483648
-  | VList xs =>
-      match t with
-      | TVec x => x <> TI8 /\ N.of_nat (length xs) < 2147483648 /\
-                  (fix all l := match l with [] => True | y :: r => has_type e x y /\ all r end) xs
-      | TArr n x => length xs = n /\ N.of_nat n < 2147483648 /\
-                  (fix all l := match l with [] => True | y :: r => has_type e x y /\ all r end) xs
-      | _ => False
-      end
-  | VMap kvs =>
-      match t with
-      | TMap kt vt => N.of_nat (length kvs) < 2147483648 /\
-                  (fix all l := match l with [] => True | (k, x) :: r => has_type e kt k /\ has_type e vt x /\ all r end) kvs
-      | _ => False
-      end
-  | VStruct vs =>
-      match t with
-      | TStruct sid =>
-          (fix all l (fds : schema) := match l, fds with
-             | [], [] => True
-             | x :: l', fd :: fds' => has_type e (fty fd) x /\ all l' fds'
-             | _, _ => False end) vs (fields_of e sid)
-      | _ => False
-      end
-  | _ => scalar_typed t v
-  end.
+   sizes that an int32 count can express, fixed arrays of exactly the declared (positive) length, struct
+   members typed by the schema. vector<byte> ([]int8) is the raw-bytes value; every other vector is a list. *)
+Inductive has_type (e : env) : ty -> val -> Prop :=
+| HT_scalar t v : scalar_ty t = true -> sc_typed t v -> has_type e t v
+| HT_bytes s : N.of_nat (length s) < 2147483648 -> has_type e (TVec TI8) (VBytes s)
+| HT_vec x xs : x <> TI8 -> N.of_nat (length xs) < 2147483648 -> Forall (has_type e x) xs ->
+    has_type e (TVec x) (VList xs)
+| HT_arr n x xs : length xs = n -> (0 < n)%nat -> N.of_nat n < 2147483648 -> Forall (has_type e x) xs ->
+    has_type e (TArr n x) (VList xs)
+| HT_map kt vt kvs : N.of_nat (length kvs) < 2147483648 ->
+    Forall (fun p => has_type e kt (fst p) /\ has_type e vt (snd p)) kvs -> has_type e (TMap kt vt) (VMap kvs)
+| HT_struct sid vs : Forall2 (fun fd x => has_type e (fty fd) x) (fields_of e sid) vs ->
+    has_type e (TStruct sid) (VStruct vs).
 
 (* ---------- what decoding the encoding of v into a fresh target yields ---------- *)
 Definition zscalar (t : ty) : val :=
@@ -70,23 +54,23 @@ Definition zscalar (t : ty) : val :=
 (* the only members whose decoded value is not literally the written one: an optional scalar that the encoder
    omitted because it compared equal to the default comes back as the default (identical except that for
    floats -0 == +0) *)
-Fixpoint ex (e : env) (t : ty) (req : bool) (d : option val) (v : val) {struct v} : val :=
+Fixpoint norm (e : env) (t : ty) (req : bool) (d : option val) (v : val) {struct v} : val :=
   match v with
   | VList xs =>
       match t with
-      | TVec x | TArr _ x => VList ((fix go l := match l with [] => [] | y :: r => ex e x true None y :: go r end) xs)
+      | TVec x | TArr _ x => VList ((fix go l := match l with [] => [] | y :: r => norm e x true None y :: go r end) xs)
       | _ => v
       end
   | VMap kvs =>
       match t with
       | TMap kt vt => VMap ((fix go l := match l with [] => []
-                               | (k, x) :: r => (ex e kt true None k, ex e vt true None x) :: go r end) kvs)
+                               | (k, x) :: r => (norm e kt true None k, norm e vt true None x) :: go r end) kvs)
       | _ => v
       end
   | VStruct vs =>
       match t with
       | TStruct sid => VStruct ((fix go l (fds : schema) := match l, fds with
-                                  | x :: l', fd :: fds' => ex e (fty fd) (freq fd) (fdef fd) x :: go l' fds'
+                                  | x :: l', fd :: fds' => norm e (fty fd) (freq fd) (fdef fd) x :: go l' fds'
                                   | _, _ => [] end) vs (fields_of e sid))
       | _ => v
       end
@@ -97,15 +81,16 @@ Fixpoint ex (e : env) (t : ty) (req : bool) (d : option val) (v : val) {struct v
                 then match d with Some dv => dv | None => zscalar t end else v
          end
   end.
-Fixpoint ex_elems (e : env) (x : ty) (l : list val) : list val :=
-  match l with [] => [] | y :: r => ex e x true None y :: ex_elems e x r end.
-Fixpoint ex_entries (e : env) (kt vt : ty) (l : list (val * val)) : list (val * val) :=
-  match l with [] => [] | (k, x) :: r => (ex e kt true None k, ex e vt true None x) :: ex_entries e kt vt r end.
-Fixpoint ex_fields (e : env) (l : list val) (fds : schema) : list val :=
+Fixpoint norm_elems (e : env) (x : ty) (l : list val) : list val :=
+  match l with [] => [] | y :: r => norm e x true None y :: norm_elems e x r end.
+Fixpoint norm_entries (e : env) (kt vt : ty) (l : list (val * val)) : list (val * val) :=
+  match l with [] => [] | (k, x) :: r => (norm e kt true None k, norm e vt true None x) :: norm_entries e kt vt r end.
+Fixpoint norm_fields (e : env) (l : list val) (fds : schema) : list val :=
   match l, fds with
-  | x :: l', fd :: fds' => ex e (fty fd) (freq fd) (fdef fd) x :: ex_fields e l' fds'
+  | x :: l', fd :: fds' => norm e (fty fd) (freq fd) (fdef fd) x :: norm_fields e l' fds'
   | _, _ => []
   end.
+Definition norm_struct (e : env) (sid : nat) (v : val) : val := norm e (TStruct sid) true None v.
 
 (* ---------- recursion depth (fuel) the decoder needs for a value ---------- *)
 Fixpoint need (v : val) : nat :=
@@ -114,34 +99,188 @@ Fixpoint need (v : val) : nat :=
   | VMap kvs => 2 + (fix go l := match l with [] => 1%nat
                        | (k, x) :: r => S (Nat.max (need k) (Nat.max (need x) (go r))) end) kvs
   | VStruct vs => 3 + (fix go l := match l with [] => 1%nat | y :: r => S (Nat.max (need y) (go r)) end) vs
-  | _ => 2
+  | _ => 3
   end.
 Fixpoint need_list (l : list val) : nat :=
   match l with [] => 1%nat | y :: r => S (Nat.max (need y) (need_list r)) end.
 Fixpoint need_entries (l : list (val * val)) : nat :=
   match l with [] => 1%nat | (k, x) :: r => S (Nat.max (need k) (Nat.max (need x) (need_entries r))) end.
 
-(* ---------- subterm types of a schema environment ---------- *)
-Fixpoint subty (a t : ty) : Prop :=
-  a = t \/ match t with
-           | TVec x | TArr _ x => subty a x
-           | TMap k v => subty a k \/ subty a v
-           | _ => False
-           end.
-Definition ty_in (e : env) (t : ty) : Prop :=
-  exists sid fd, In fd (fields_of e sid) /\ subty t (fty fd).
-
-(* declared defaults exist on scalar members only (the IDL allows nothing else) *)
-Definition defaults_scalar (e : env) : Prop :=
-  forall sid fd, In fd (fields_of e sid) -> fdef fd <> None -> scalar_ty (fty fd) = true.
-
-(* what may follow an omitted optional member: the end of the input, or the head of a member with a larger
-   tag, or a StructEnd head *)
-Definition follows (tag : N) (rest : list N) : Prop :=
-  rest = [] \/ exists ty tg r, ty < 16 /\ tg < 256 /\ rest = head ty tg ++ r /\ (ty = tSE \/ tag < tg).
+(* ---------- by-value nesting of struct types is bounded (a Go struct cannot contain itself by value) ---------- *)
+Fixpoint nest_ok (fuel : nat) (e : env) (t : ty) : bool :=
+  match fuel with O => false | S f =>
+  match t with
+  | TArr _ x => nest_ok f e x
+  | TStruct sid => forallb (fun fd => nest_ok f e (fty fd)) (fields_of e sid)
+  | _ => true
+  end end.
+Fixpoint ty_nest (k : nat) (e : env) (t : ty) : bool :=
+  nest_ok k e t &&
+  match t with
+  | TVec x | TArr _ x => ty_nest k e x
+  | TMap a b => ty_nest k e a && ty_nest k e b
+  | _ => true
+  end.
 
 (* strictly ascending member tags below 256 *)
 Fixpoint ascending (prev : N) (fds : schema) : Prop :=
   match fds with [] => True | fd :: r => prev < ftag fd /\ ftag fd < 256 /\ ascending (ftag fd) r end.
 Definition schema_ascending (fds : schema) : Prop :=
   match fds with [] => True | fd :: r => ftag fd < 256 /\ ascending (ftag fd) r end.
+
+(* the schema conditions of the struct-level theorems: member tags strictly ascending and below 256 (what the
+   tars2go parser guarantees by sorting and rejecting duplicates), declared defaults on scalar members only
+   (all the IDL allows), by-value struct nesting of depth at most k *)
+Record wf_schema (k : nat) (e : env) : Prop := {
+  wf_asc : forall sid, schema_ascending (fields_of e sid);
+  wf_def : forall sid fd, In fd (fields_of e sid) -> fdef fd <> None -> scalar_ty (fty fd) = true;
+  wf_nest : forall sid fd, In fd (fields_of e sid) -> ty_nest k e (fty fd) = true
+}.
+(* the same as a boolean, for concrete environments *)
+Definition wf_schema_b (k : nat) (e : env) : bool :=
+  forallb (fun s => tags_ascending None s &&
+                    forallb (fun fd => (match fdef fd with None => true | Some _ => scalar_ty (fty fd) end)
+                                       && ty_nest k e (fty fd)) s) e.
+
+(* ---------- admissible prior targets ---------- *)
+(* what the decoder may find in the target where a member is absent: the Go zero value in every position that
+   has no declared default (positions with a declared default are overwritten by ResetDefault first) *)
+Inductive zlike (e : env) : ty -> val -> Prop :=
+| ZL_base t : (match t with TArr _ _ | TStruct _ => false | _ => true end) = true -> zlike e t (zero_of 1 e t)
+| ZL_arr n x l : length l = n -> Forall (zlike e x) l -> zlike e (TArr n x) (VList l)
+| ZL_struct sid vs : Forall2 (fun fd p => fdef fd = None -> zlike e (fty fd) p) (fields_of e sid) vs ->
+    zlike e (TStruct sid) (VStruct vs).
+Definition prior_ok (e : env) (t : ty) (d : option val) (p : val) : Prop :=
+  match d with Some dv => p = dv | None => zlike e t p end.
+
+(* ResetDefault's member loop *)
+Fixpoint reset_go (f : nat) (e : env) (fds : schema) (vs : list val) : list val :=
+  match fds, vs with
+  | fd :: fds', x :: vs' =>
+      (match fdef fd with
+       | Some d => d
+       | None => match fty fd with TStruct s => reset_default f e s x | _ => x end
+       end) :: reset_go f e fds' vs'
+  | _, _ => vs
+  end.
+
+(* ---------- unknown fields ---------- *)
+(* well-formed wire fields (any wire type, any nesting within the skip depth limit) with tags in (lo, hi) *)
+Definition junk_ok (lo : option N) (hi : N) (J : list (N * wf)) : Prop :=
+  Forall (fun p => fst p < 256 /\ wf_ok (snd p) /\ wdepth (snd p) <= maxd /\ fst p < hi /\
+                   (match lo with Some l => l < fst p | None => True end)) J.
+
+(* what may follow an omitted optional member: the end of the input, or a head with a larger tag, or a
+   StructEnd head *)
+Definition follows (tag : N) (rest : list N) : Prop :=
+  rest = [] \/ exists ty tg r, ty < 16 /\ tg < 256 /\ rest = head ty tg ++ r /\ (ty = tSE \/ tag < tg).
+
+(* the members of a struct with a group of unknown fields in front of each member *)
+Fixpoint encx_fields (e : env) (l : list val) (fds : schema) (Js : list (list (N * wf))) : list N :=
+  match l, fds, Js with
+  | x :: l', fd :: fds', J :: Js' =>
+      ser_fields J ++ enc_var e (ftag fd) (freq fd) (fty fd) (fdef fd) x ++ encx_fields e l' fds' Js'
+  | _, _, _ => []
+  end.
+Fixpoint junks_ok (prev : option N) (fds : schema) (Js : list (list (N * wf))) : Prop :=
+  match fds, Js with
+  | [], [] => True
+  | fd :: fds', J :: Js' => junk_ok prev (ftag fd) J /\ junks_ok (Some (ftag fd)) fds' Js'
+  | _, _ => False
+  end.
+
+(* ---------- a boolean type checker (for concrete examples) ---------- *)
+Definition sc_typed_b (t : ty) (v : val) : bool :=
+  match t, v with
+  | TBool, VBool _ => true
+  | TI8, VInt z => fits 8 z | TI16, VInt z => fits 16 z
+  | TI32, VInt z => fits 32 z | TEnum, VInt z => fits 32 z | TI64, VInt z => fits 64 z
+  | TU8, VInt z => (0 <=? z)%Z && (z <? 256)%Z | TU16, VInt z => (0 <=? z)%Z && (z <? 65536)%Z
+  | TU32, VInt z => (0 <=? z)%Z && (z <? 4294967296)%Z
+  | TF32, VFlt b => b <? 4294967296 | TF64, VFlt b => b <? 18446744073709551616
+  | TStr, VStr s => N.of_nat (length s) <? 4294967296
+  | _, _ => false
+  end.
+Definition is_i8 (t : ty) : bool := match t with TI8 => true | _ => false end.
+Fixpoint has_type_b (fuel : nat) (e : env) (t : ty) (v : val) : bool :=
+  match fuel with O => false | S f =>
+  match v with
+  | VBytes s => (match t with TVec x => is_i8 x | _ => false end) && (N.of_nat (length s) <? 2147483648)
+  | VList xs =>
+      match t with
+      | TVec x => negb (is_i8 x) && (N.of_nat (length xs) <? 2147483648) && forallb (has_type_b f e x) xs
+      | TArr n x => (length xs =? n)%nat && (0 <? n)%nat && (N.of_nat n <? 2147483648) && forallb (has_type_b f e x) xs
+      | _ => false
+      end
+  | VMap kvs =>
+      match t with
+      | TMap kt vt => (N.of_nat (length kvs) <? 2147483648) &&
+                      forallb (fun p => has_type_b f e kt (fst p) && has_type_b f e vt (snd p)) kvs
+      | _ => false
+      end
+  | VStruct vs =>
+      match t with
+      | TStruct sid =>
+          (fix go (fds : schema) (l : list val) : bool :=
+             match fds, l with
+             | [], [] => true
+             | fd :: fds', x :: l' => has_type_b f e (fty fd) x && go fds' l'
+             | _, _ => false
+             end) (fields_of e sid) vs
+      | _ => false
+      end
+  | _ => scalar_ty t && sc_typed_b t v
+  end end.
+
+(* ---------- static bound on the recursion depth of values of a (non-recursive) type ---------- *)
+Fixpoint tfin (fuel : nat) (e : env) (t : ty) : bool :=
+  match fuel with O => false | S f =>
+  match t with
+  | TVec x | TArr _ x => tfin f e x
+  | TMap a b => tfin f e a && tfin f e b
+  | TStruct sid => forallb (fun fd => tfin f e (fty fd)) (fields_of e sid)
+  | _ => true
+  end end.
+Definition tmax (g : ty -> nat) (fds : schema) : nat := fold_right (fun fd m => Nat.max (g (fty fd)) m) 0%nat fds.
+Fixpoint tneed (fuel : nat) (e : env) (t : ty) : nat :=
+  match fuel with O => 0%nat | S f =>
+  match t with
+  | TVec x | TArr _ x => 3 + tneed f e x
+  | TMap a b => 3 + Nat.max (tneed f e a) (tneed f e b)
+  | TStruct sid => 4 + length (fields_of e sid) + tmax (tneed f e) (fields_of e sid)
+  | _ => 3
+  end end.
+
+(* ---------- C05: types none of whose decoders contains a known-finding site ---------- *)
+(* the generated LIST branch (make([]T, n) with the wire count; also taken by vector<byte> when the writer
+   sends a LIST) and the fixed-array index are the sites of the recorded findings: a type is [safe_ty] when no
+   vector or array is reachable from it *)
+Fixpoint safe_ty (fuel : nat) (e : env) (t : ty) : bool :=
+  match fuel with O => false | S f =>
+  match t with
+  | TVec _ | TArr _ _ => false
+  | TMap a b => safe_ty f e a && safe_ty f e b
+  | TStruct sid => forallb (fun fd => safe_ty f e (fty fd)) (fields_of e sid)
+  | _ => true
+  end end.
+Definition ok_out {A} (r : dres A) : Prop := match r with DPanic _ | DHuge => False | _ => True end.
+Definition total_out {A} (r : dres A) : Prop := match r with DOk _ _ | DErr => True | _ => False end.
+
+(* ---------- C06: the wire types a reader of IDL type t admits ---------- *)
+Definition adm_int (bits : Z) (ty : N) : bool :=
+  (ty =? tZERO) || (ty =? tBYTE) || ((ty =? tSHORT) && (16 <=? bits)%Z) || ((ty =? tINT) && (32 <=? bits)%Z)
+  || ((ty =? tLONG) && (64 <=? bits)%Z).
+Definition adm (t : ty) (ty : N) : bool :=
+  match t with
+  | TBool | TI8 => adm_int 8 ty
+  | TU8 | TI16 => adm_int 16 ty
+  | TU16 | TI32 | TEnum => adm_int 32 ty
+  | TU32 | TI64 => adm_int 64 ty
+  | TF32 => (ty =? tZERO) || (ty =? tFLOAT)
+  | TF64 => (ty =? tZERO) || (ty =? tFLOAT) || (ty =? tDOUBLE)
+  | TStr => (ty =? tSTR4) || (ty =? tSTR1)
+  | TVec x => (ty =? tLIST) || ((ty =? tSIMPLE) && is_byte x)
+  | TArr _ _ => ty =? tLIST
+  | TMap _ _ => ty =? tMAP
+  | TStruct _ => ty =? tSB
+  end.
